@@ -1,23 +1,585 @@
 package engine
 
-import "verifsim/simrt"
+import (
+	"encoding/binary"
+	"encoding/json"
+	"fmt"
+	"os"
+	"sort"
+	"strings"
+	"testing"
+	"time"
+
+	"github.com/B1NARY-GR0UP/originium"
+
+	"verifsim/simrt"
+)
+
+// AckModel (M-ack) tracks, per key, the set of values a read after a crash at
+// this instant may return: the value of the last acknowledged commit touching
+// the key, plus the values of commits that were called but have not returned.
+type AckModel struct {
+	allowed  map[string][]mval        // settled part (one entry unless inherited from an image)
+	inflight map[int]map[string]mval  // client -> write set of the commit in flight
+	order    map[int][]string         // client -> keys of the in-flight commit (deterministic order)
+}
+
+func newAckModel() *AckModel {
+	return &AckModel{allowed: map[string][]mval{}, inflight: map[int]map[string]mval{}, order: map[int][]string{}}
+}
+
+func (a *AckModel) get(k string) []mval {
+	if v, ok := a.allowed[k]; ok {
+		return v
+	}
+	return []mval{{}}
+}
+
+func (a *AckModel) begin(client int, ws map[string]mval, order []string) {
+	a.inflight[client] = ws
+	a.order[client] = order
+}
+
+func (a *AckModel) end(client int, committed bool) {
+	ws := a.inflight[client]
+	delete(a.inflight, client)
+	delete(a.order, client)
+	if committed {
+		for k, v := range ws {
+			a.allowed[k] = []mval{v}
+		}
+	}
+}
+
+// freeze records that a read after recovery returned v: from now on that is
+// the key's value.
+func (a *AckModel) freeze(k string, v mval) { a.allowed[k] = []mval{v} }
+
+// InflightTxn describes a commit in flight at a crash point (for C04).
+type InflightTxn struct {
+	Client int
+	Keys   []string
+	New    map[string]mval
+	Old    map[string][]mval
+}
+
+// AckSnap is the oracle's knowledge at one crash point.
+type AckSnap struct {
+	Allowed  map[string][]mval
+	Inflight []InflightTxn
+}
+
+func (a *AckModel) snap(keys []string) *AckSnap {
+	s := &AckSnap{Allowed: map[string][]mval{}}
+	for _, k := range keys {
+		s.Allowed[k] = append([]mval(nil), a.get(k)...)
+	}
+	var clients []int
+	for c := range a.inflight {
+		clients = append(clients, c)
+	}
+	sort.Ints(clients)
+	for _, c := range clients {
+		it := InflightTxn{Client: c, Keys: a.order[c], New: map[string]mval{}, Old: map[string][]mval{}}
+		for _, k := range it.Keys {
+			v := a.inflight[c][k]
+			it.New[k] = v
+			it.Old[k] = append([]mval(nil), a.get(k)...)
+			s.Allowed[k] = append(s.Allowed[k], v)
+		}
+		s.Inflight = append(s.Inflight, it)
+	}
+	return s
+}
+
+func (s *AckSnap) hash() uint64 {
+	h := uint64(0xcbf29ce484222325)
+	mix := func(x string) {
+		for i := 0; i < len(x); i++ {
+			h ^= uint64(x[i])
+			h *= 0x100000001b3
+		}
+		h ^= 0xff
+		h *= 0x100000001b3
+	}
+	var keys []string
+	for k := range s.Allowed {
+		keys = append(keys, k)
+	}
+	sort.Strings(keys)
+	for _, k := range keys {
+		mix(k)
+		for _, v := range s.Allowed[k] {
+			mix(v.String())
+		}
+	}
+	for _, it := range s.Inflight {
+		mix(fmt.Sprint(it.Client, it.Keys))
+	}
+	return h
+}
 
 // CrashImage is the state of the run directory at one crash point together
 // with what the oracle knew at that instant.
 type CrashImage struct {
-	Index int
-	Op    int
-	Name  string
-	Task  string
-	Phase string
-	Image simrt.Image
+	Path   []int // crash point indices from the recording run downwards
+	Op     int
+	Name   string
+	Task   string
+	Phase  string
+	At     time.Duration // simulated time since bubble start
+	Image  simrt.Image
+	Ack    *AckSnap
+	CutTag string
+	Vals   map[string]int // every value id written so far in the lineage of runs (id -> padding)
 }
 
 type crashRecorder struct {
 	r      *Runner
 	images []*CrashImage
+	seen   map[[2]uint64]bool
+	base   []int
 }
 
-func newCrashRecorder(r *Runner) *crashRecorder { return &crashRecorder{r: r} }
+func newCrashRecorder(r *Runner) *crashRecorder {
+	return &crashRecorder{r: r, seen: map[[2]uint64]bool{}}
+}
 
-func (c *crashRecorder) onFS(ev simrt.FSEvent) {}
+func fileKind(name string) string {
+	switch {
+	case strings.HasSuffix(name, ".log"):
+		return "wal"
+	case strings.HasSuffix(name, ".db"):
+		if strings.HasPrefix(name, "0-") {
+			return "l0"
+		}
+		return "ln"
+	case name == "":
+		return "dir"
+	}
+	return "other"
+}
+
+func (c *crashRecorder) onFS(ev simrt.FSEvent) {
+	r := c.r
+	if r.s == nil {
+		return
+	}
+	phase := r.phase
+	if !ev.Task.Client {
+		// background goroutine: flusher/compactor
+		switch fileKind(ev.Name) {
+		case "l0", "wal":
+			phase = "flush"
+		default:
+			phase = "compaction"
+		}
+	} else if phase == "commit" && ev.Op == os.VerifOpOpen {
+		phase = "rotation"
+	}
+	snap := r.ack.snap(r.c.Keys)
+	img := r.s.FS.Snapshot()
+	key := [2]uint64{img.Hash(), snap.hash()}
+	r.res.Probes["crash_points"]++
+	if c.seen[key] {
+		return
+	}
+	c.seen[key] = true
+	path := append(append([]int(nil), c.base...), ev.Index)
+	c.images = append(c.images, &CrashImage{Path: path, Op: ev.Op, Name: ev.Name, Task: ev.Task.Name, Phase: phase,
+		At: time.Since(r.s.SimStart), Image: img, Ack: snap, Vals: r.vals})
+}
+
+// ------------------------------------------------------------------ tail cuts (C14)
+
+// walBoundaries returns the record boundaries of a wal file image.
+func walBoundaries(b []byte) []int {
+	var res []int
+	off := 0
+	for off+8 <= len(b) {
+		n := int(int64(binary.LittleEndian.Uint64(b[off:])))
+		if n < 0 || off+8+n > len(b) {
+			break
+		}
+		off += 8 + n
+		res = append(res, off)
+	}
+	return res
+}
+
+// cutVariants lists the lengths to which one file with an unsynced tail is cut.
+func cutVariants(name string, st simrt.FileState) []int {
+	lo, hi := st.Synced, len(st.Data)
+	set := map[int]bool{lo: true, hi: true}
+	if hi-lo >= 2 {
+		set[lo+1] = true
+		set[hi-1] = true
+		set[(lo+hi)/2] = true
+	}
+	if fileKind(name) == "wal" {
+		prev := 0
+		for _, b := range walBoundaries(st.Data) {
+			for _, x := range []int{b, prev + 3, prev + 8 + 1} {
+				if x >= lo && x <= hi {
+					set[x] = true
+				}
+			}
+			prev = b
+		}
+		for _, x := range []int{prev + 3, prev + 9} {
+			if x >= lo && x <= hi {
+				set[x] = true
+			}
+		}
+	}
+	var res []int
+	for x := range set {
+		res = append(res, x)
+	}
+	sort.Ints(res)
+	return res
+}
+
+// tailCutImages expands one image into its tail-cut variants (excluding the
+// uncut one, which is the plain C03 image).
+func tailCutImages(img *CrashImage, rng *simrt.SplitMix, max int) []*CrashImage {
+	type fc struct {
+		name string
+		cuts []int
+	}
+	var files []fc
+	total := 1
+	for _, n := range img.Image.Names() {
+		st := img.Image[n]
+		if len(st.Data) > st.Synced {
+			v := cutVariants(n, st)
+			files = append(files, fc{n, v})
+			total *= len(v)
+		}
+	}
+	if len(files) == 0 {
+		return nil
+	}
+	mk := func(choice []int) *CrashImage {
+		im := make(simrt.Image, len(img.Image))
+		for k, v := range img.Image {
+			im[k] = v
+		}
+		var tag []string
+		cut := false
+		for i, f := range files {
+			st := im[f.name]
+			l := f.cuts[choice[i]]
+			if l < len(st.Data) {
+				cut = true
+				tag = append(tag, fmt.Sprintf("%s:%d/%d(synced %d)", f.name, l, len(st.Data), st.Synced))
+				im[f.name] = simrt.FileState{Data: st.Data[:l], Synced: st.Synced}
+			}
+		}
+		if !cut {
+			return nil
+		}
+		c := *img
+		c.Image = im
+		c.CutTag = strings.Join(tag, ",")
+		return &c
+	}
+	var res []*CrashImage
+	if total <= max {
+		choice := make([]int, len(files))
+		for {
+			if c := mk(choice); c != nil {
+				res = append(res, c)
+			}
+			i := 0
+			for ; i < len(files); i++ {
+				choice[i]++
+				if choice[i] < len(files[i].cuts) {
+					break
+				}
+				choice[i] = 0
+			}
+			if i == len(files) {
+				break
+			}
+		}
+		return res
+	}
+	// sample, always including "everything cut to its synced length"
+	res = append(res, mk(make([]int, len(files))))
+	for len(res) < max {
+		choice := make([]int, len(files))
+		for i := range choice {
+			choice[i] = rng.Intn(len(files[i].cuts))
+		}
+		if c := mk(choice); c != nil {
+			res = append(res, c)
+		}
+	}
+	return res
+}
+
+// ------------------------------------------------------------------ recovery of one image
+
+type RecoveryResult struct {
+	Violations []Violation
+	Fatal      string
+	FatalStk   string
+	Sim        *simrt.Sim
+	Nested     []*CrashImage
+	Reads      int
+	WalFiles   int
+	Tables     int
+}
+
+func imageCounts(im simrt.Image) (wal, tables int) {
+	for n := range im {
+		switch fileKind(n) {
+		case "wal":
+			wal++
+		case "l0", "ln":
+			tables++
+		}
+	}
+	return
+}
+
+// RecoverImage opens a fresh engine instance on the image in a bubble of its
+// own, checks every key against the image's oracle knowledge (M-ack, C04
+// atomicity), runs a post-recovery workload, restarts cleanly and checks
+// again. The recovery is itself recorded, so its own crash points come back as
+// nested images.
+func RecoverImage(t *testing.T, parent *Case, img *CrashImage, seed uint64, nested bool) *RecoveryResult {
+	out := &RecoveryResult{}
+	dir, err := os.MkdirTemp("/dev/shm", "verif-rec-")
+	if err != nil {
+		panic(err)
+	}
+	defer os.RemoveAll(dir)
+	if err := img.Image.Materialize(dir); err != nil {
+		panic(err)
+	}
+	out.WalFiles, out.Tables = imageCounts(img.Image)
+	rng := simrt.NewSplitMix(seed ^ 0x5eed)
+	c := &Case{Prop: parent.Prop, Profile: "recovery", Seed: seed, Keys: parent.Keys, Final: false}
+	c.Sim = genSim(&rng)
+	c.Sim.Poison = parent.Sim.Poison
+	c.Configs = []Cfg{nextCfg(&rng, parent.Configs[0], true), nextCfg(&rng, parent.Configs[0], true)}
+	post := 2
+	if parent.Crash != nil && parent.Crash.PostTxns > 0 {
+		post = parent.Crash.PostTxns
+	}
+	gap := restartGap(&rng)
+	res := &RunResult{Case: c, Probes: Probes{}}
+	r := &Runner{c: c, dir: dir, vals: map[string]int{}, res: res, hist: &History{Clients: make([][]Event, 1)}}
+	r.ack = newAckModel()
+	for id, pad := range img.Vals {
+		r.vals[id] = pad
+	}
+	for k, v := range img.Ack.Allowed {
+		r.ack.allowed[k] = append([]mval(nil), v...)
+		for _, x := range v {
+			if x.present && x.pad >= 0 {
+				r.vals[x.id] = x.pad
+			}
+		}
+	}
+	if nested {
+		r.crash = newCrashRecorder(r)
+		r.crash.base = img.Path
+	}
+	viol := func(oracle, class, key, msg string) {
+		out.Violations = append(out.Violations, Violation{Oracle: oracle, Class: class, Key: key, Msg: msg})
+	}
+	where := fmt.Sprintf("crash point %v (%s %s by %s, phase %s%s)", img.Path, simrt.FSOpName(img.Op), img.Name, img.Task, img.Phase,
+		map[bool]string{true: ", cuts " + img.CutTag, false: ""}[img.CutTag != ""])
+
+	// checkSweep reads every key and compares with the allowed sets; the value
+	// read becomes the key's value from then on.
+	checkSweep := func(stage string) map[string]mval {
+		rec := r.sweep(0, 0)
+		r.hist.Clients[0] = append(r.hist.Clients[0], Event{Kind: "txn", Txn: rec})
+		got := map[string]mval{}
+		for _, op := range rec.Ops {
+			out.Reads++
+			allowed := r.ack.get(op.Key)
+			var hit *mval
+			for i := range allowed {
+				if allowed[i].matches(op.Found, op.Got) {
+					hit = &allowed[i]
+					break
+				}
+			}
+			if hit == nil {
+				g := op.Got
+				if !op.Found {
+					g = "<not found>"
+				}
+				var al []string
+				for _, a := range allowed {
+					al = append(al, a.String())
+				}
+				cls := "lost-or-wrong"
+				if !op.Found {
+					cls = "lost"
+				} else if strings.HasPrefix(op.Got, "CORRUPT") {
+					cls = "corrupt"
+				}
+				viol("m-ack", cls+":"+img.Phase, op.Key, fmt.Sprintf("%s: after recovery at %s Get(%q) = %s, allowed %v", stage, where, op.Key, g, al))
+				continue
+			}
+			got[op.Key] = *hit
+			r.ack.freeze(op.Key, *hit)
+		}
+		return got
+	}
+
+	opt := simrt.Options{Seed: seed, Strategy: c.Sim.Strategy, StickyP: c.Sim.StickyP, PCTDepth: c.Sim.PCTDepth, Dir: dir,
+		PoolSim: true, ClockWide: c.Sim.ClockWide,
+		Teardown: func(s *simrt.Sim) {
+			for _, db := range r.dbs {
+				func() {
+					defer func() { recover() }()
+					db.VerifKill()
+				}()
+			}
+		}}
+	if c.Sim.Poison {
+		opt.Poison = poisonBuf
+	}
+	if r.crash != nil {
+		opt.OnFS = r.crash.onFS
+	}
+	s := simrt.Run(t, opt, func(s *simrt.Sim) {
+		r.s = s
+		s.Sleep(img.At + time.Duration(gap))
+		r.phase = "recovery"
+		if !r.openDB(0) {
+			return
+		}
+		r.phase = ""
+		ok := r.guard("client-panic", func() {
+			got := checkSweep("first read")
+			// C04: the commit in flight at the crash is all-or-nothing
+			for _, it := range img.Ack.Inflight {
+				var asNew, asOld, distinguishable []string
+				for _, k := range it.Keys {
+					g, ok := got[k]
+					if !ok {
+						continue
+					}
+					isNew := g.same(it.New[k])
+					couldBeOld := false
+					for _, o := range it.Old[k] {
+						if o.same(it.New[k]) {
+							couldBeOld = true
+						}
+					}
+					if couldBeOld {
+						continue
+					}
+					distinguishable = append(distinguishable, k)
+					if isNew {
+						asNew = append(asNew, k)
+					} else {
+						asOld = append(asOld, k)
+					}
+				}
+				if len(asNew) > 0 && len(asOld) > 0 {
+					viol("txn-atomicity", "partial:"+img.Phase, asNew[0], fmt.Sprintf("after recovery at %s the transaction in flight (client %d, keys %q) is visible partially: new for %q, old for %q",
+						where, it.Client, it.Keys, asNew, asOld))
+				}
+				_ = distinguishable
+			}
+			// post-recovery workload: the store accepts and retains further commits
+			vg := &valGen{client: 90 + len(img.Path)}
+			for i := 0; i < post; i++ {
+				tp := &TxnProg{ID: 100 + i, Mode: "update", End: "commit"}
+				tp.Ops = genTxnOps(&rng, c.Keys, vg, 100+i, true, 1+rng.Intn(3))
+				pre := map[string][]mval{}
+				for _, k := range c.Keys {
+					pre[k] = append([]mval(nil), r.ack.get(k)...)
+				}
+				rec := r.runTxn(0, tp)
+				r.hist.Clients[0] = append(r.hist.Clients[0], Event{Kind: "txn", Txn: rec})
+				if rec.Err != "" {
+					viol("post-recovery", "commit-refused", "", fmt.Sprintf("after recovery at %s a commit returned %q", where, rec.Err))
+				}
+				// reads inside the transaction must match too
+				r.checkTxnReads(rec, pre, viol, where)
+			}
+			checkSweep("after post-recovery commits")
+			if !r.closeDB() {
+				return
+			}
+			s.Sleep(time.Duration(restartGap(&rng)))
+			r.phase = "recovery"
+			if !r.openDB(1) {
+				return
+			}
+			r.phase = ""
+			checkSweep("after clean restart")
+			r.closeDB()
+		})
+		_ = ok
+	})
+	out.Sim = s
+	out.Fatal, out.FatalStk = res.Fatal, res.FatalStk
+	if s.Abort != "" && out.Fatal == "" {
+		out.Fatal = "background-panic: " + s.Abort
+		for _, tk := range s.Tasks() {
+			if tk.PanicVal != nil {
+				out.FatalStk = tk.PanicStack
+			}
+		}
+	}
+	if out.Fatal != "" {
+		viol("recovery-fatal", fatalClass(out.Fatal)+":"+panicSite(out.FatalStk)+":"+img.Phase, "", fmt.Sprintf("recovery at %s: %s", where, out.Fatal))
+	}
+	if s.Deadlock || s.Livelock {
+		viol("recovery-hang", "hang:"+img.Phase, "", fmt.Sprintf("recovery at %s does not finish:\n%s", where, s.DeadInfo))
+	}
+	if r.crash != nil {
+		out.Nested = r.crash.images
+	}
+	if os.Getenv("VERIF_DEBUG") != "" && len(out.Violations) > 0 {
+		hb, _ := json.MarshalIndent(r.hist, "", " ")
+		fmt.Printf("=== recovery of %v cuts=%q files=%v\n%s\n", img.Path, img.CutTag, img.Image.Names(), hb)
+		for _, v := range out.Violations {
+			fmt.Println("  VIOL", v.Oracle, v.Class, v.Msg)
+		}
+	}
+	return out
+}
+
+// checkTxnReads compares the reads of a post-recovery transaction with the
+// model (own writes first, then the frozen state) and applies its writes.
+func (r *Runner) checkTxnReads(rec *TxnRec, pre map[string][]mval, viol func(oracle, class, key, msg string), where string) {
+	overlay := map[string]mval{}
+	for _, op := range rec.Ops {
+		switch op.K {
+		case "get":
+			want, own := overlay[op.Key]
+			var allowed []mval
+			if own {
+				allowed = []mval{want}
+			} else {
+				allowed = pre[op.Key]
+			}
+			ok := false
+			for _, a := range allowed {
+				if a.matches(op.Found, op.Got) {
+					ok = true
+				}
+			}
+			if !ok {
+				viol("m-ack", "post-recovery-read", op.Key, fmt.Sprintf("post-recovery txn after %s: Get(%q) = %q found=%v, allowed %v", where, op.Key, op.Got, op.Found, allowed))
+			}
+		case "set":
+			overlay[op.Key] = mval{id: op.Val, pad: op.Pad, present: true}
+		case "del":
+			overlay[op.Key] = mval{}
+		}
+	}
+	_ = originium.ErrConflictTxn
+}
